@@ -325,11 +325,22 @@ theorem findInst_append_none {k : Nat} {l : List Inst} (x : List Inst) (h : find
       simp only [hne, if_false] at h
       exact ih h
 
-/-- after the registration step the instance exists; it is the old record, or a new empty one -/
+theorem findInst_setReg (k : Nat) (l : List Inst) :
+    findInst k (setReg k l) = (findInst k l).map (fun i => { i with registered := true }) := by
+  induction l with
+  | nil => rfl
+  | cons x xs ih =>
+    simp only [setReg, findInst]
+    split
+    · rename_i hk; simp [findInst, hk]
+    · rename_i hk; simp [findInst, hk, ih]
+
+/-- after the registration step the instance exists: the old record with the flag set, or a new empty one -/
 theorem findInst_regInsts (insts : List Inst) (k : Nat) :
-    (∃ i, findInst k insts = some i ∧ regInsts insts k = insts ∧ findInst k (regInsts insts k) = some i) ∨
-    (findInst k insts = none ∧ regInsts insts k = insts ++ [{ key := k, samples := [] }]
-      ∧ findInst k (regInsts insts k) = some { key := k, samples := [] }) := by
+    (∃ i, findInst k insts = some i ∧ regInsts insts k = setReg k insts
+      ∧ findInst k (regInsts insts k) = some { i with registered := true }) ∨
+    (findInst k insts = none ∧ regInsts insts k = insts ++ [{ key := k, samples := [], registered := true }]
+      ∧ findInst k (regInsts insts k) = some { key := k, samples := [], registered := true }) := by
   unfold regInsts
   cases h : findInst k insts with
   | none =>
@@ -340,7 +351,8 @@ theorem findInst_regInsts (insts : List Inst) (k : Nat) :
     simp [findInst]
   | some i =>
     left
-    exact ⟨i, rfl, by simp, by simp [h]⟩
+    refine ⟨i, rfl, by simp, ?_⟩
+    simp only [Option.isSome_some, if_true, findInst_setReg, h, Option.map_some]
 
 /-- every instance holds at most `d` samples -/
 def LenOk (d : Nat) (l : List Inst) : Prop := ∀ i ∈ l, i.samples.length ≤ d
@@ -399,17 +411,55 @@ theorem findInst_popFront (k : Nat) (l : List Inst) :
     · rename_i hk; simp [findInst, hk, ih]
 
 theorem lenOk_append_new (d k : Nat) (l : List Inst) (h : LenOk d l) :
-    LenOk d (l ++ [{ key := k, samples := [] }]) := by
+    LenOk d (l ++ [{ key := k, samples := [], registered := true }]) := by
   intro i hi
   simp only [List.mem_append, List.mem_singleton] at hi
   rcases hi with hi | hi
   · exact h i hi
   · subst hi; simp
 
+theorem setReg_lenOk (d k : Nat) (l : List Inst) (h : LenOk d l) : LenOk d (setReg k l) := by
+  induction l with
+  | nil => intro i hi; simp [setReg] at hi
+  | cons x xs ih =>
+    have hx := h x List.mem_cons_self
+    have hxs : LenOk d xs := fun j hj => h j (List.mem_cons_of_mem _ hj)
+    simp only [setReg]
+    split
+    · intro i hi
+      simp only [List.mem_cons] at hi
+      rcases hi with hi | hi
+      · subst hi; exact hx
+      · exact hxs i hi
+    · intro i hi
+      simp only [List.mem_cons] at hi
+      rcases hi with hi | hi
+      · subst hi; exact hx
+      · exact ih hxs i hi
+
+theorem clearReg_lenOk (d k : Nat) (l : List Inst) (h : LenOk d l) : LenOk d (clearReg k l) := by
+  induction l with
+  | nil => intro i hi; simp [clearReg] at hi
+  | cons x xs ih =>
+    have hx := h x List.mem_cons_self
+    have hxs : LenOk d xs := fun j hj => h j (List.mem_cons_of_mem _ hj)
+    simp only [clearReg]
+    split
+    · intro i hi
+      simp only [List.mem_cons] at hi
+      rcases hi with hi | hi
+      · subst hi; exact hx
+      · exact hxs i hi
+    · intro i hi
+      simp only [List.mem_cons] at hi
+      rcases hi with hi | hi
+      · subst hi; exact hx
+      · exact ih hxs i hi
+
 theorem regInsts_lenOk (d k : Nat) (l : List Inst) (h : LenOk d l) : LenOk d (regInsts l k) := by
   unfold regInsts
   split
-  · exact h
+  · exact setReg_lenOk d k l h
   · exact lenOk_append_new d k l h
 
 -- ------------------------------------------------------------------------------------------- frames
@@ -423,14 +473,14 @@ theorem addChange_frame (s : St) (c : Change) (now : Int) :
 /-- the cases of DataWriterEntity::write_w_timestamp (with the repair of D25): refused = nothing changes -/
 theorem entWrite_cases (s : St) (k : Nat) (v : Int) (ts now : Int) :
     ((entWrite s k v ts now).2.1 = .outOfResources ∧ (entWrite s k v ts now).2.2 = [] ∧ (entWrite s k v ts now).1 = s
-      ∧ (((findInst k s.insts).isSome = false ∧ ltLen s.insts.length s.qos.maxInstances = false)
+      ∧ ((isReg s.insts k = false ∧ ltLen (regCount s.insts) s.qos.maxInstances = false)
           ∨ spiHit s.qos s.insts k = true ∨ samplesHit s.qos s.insts = true)) ∨
     ((entWrite s k v ts now).2.1 = .ok
       ∧ (entWrite s k v ts now).1.qos = s.qos ∧ (entWrite s k v ts now).1.lastSn = s.lastSn + 1
       ∧ (entWrite s k v ts now).1.pending = s.pending
       ∧ (entWrite s k v ts now).1.insts = pushSample k (s.lastSn + 1) (regInsts s.insts k)
       ∧ (spiHit s.qos s.insts k || samplesHit s.qos s.insts) = false
-      ∧ ((findInst k s.insts).isSome = true ∨ ltLen s.insts.length s.qos.maxInstances = true)
+      ∧ (isReg s.insts k = true ∨ ltLen (regCount s.insts) s.qos.maxInstances = true)
       ∧ ((expiredAtWrite s.qos ts now = true ∧ (entWrite s k v ts now).2.2 = []
             ∧ (entWrite s k v ts now).1.changes = s.changes ∧ (entWrite s k v ts now).1.proxies = s.proxies) ∨
          (expiredAtWrite s.qos ts now = false
@@ -444,7 +494,7 @@ theorem entWrite_cases (s : St) (k : Nat) (v : Int) (ts now : Int) :
   · rename_i h0
     left
     refine ⟨rfl, rfl, rfl, Or.inl ?_⟩
-    cases ha : (findInst k s.insts).isSome <;> cases hb : ltLen s.insts.length s.qos.maxInstances <;> simp_all
+    cases ha : isReg s.insts k <;> cases hb : ltLen (regCount s.insts) s.qos.maxInstances <;> simp_all
   · rename_i h0
     split
     · rename_i h1
@@ -452,8 +502,8 @@ theorem entWrite_cases (s : St) (k : Nat) (v : Int) (ts now : Int) :
       refine ⟨rfl, rfl, rfl, Or.inr ?_⟩
       simpa using h1
     · rename_i h1
-      have h0' : (findInst k s.insts).isSome = true ∨ ltLen s.insts.length s.qos.maxInstances = true := by
-        cases ha : (findInst k s.insts).isSome <;> cases hb : ltLen s.insts.length s.qos.maxInstances <;> simp_all
+      have h0' : isReg s.insts k = true ∨ ltLen (regCount s.insts) s.qos.maxInstances = true := by
+        cases ha : isReg s.insts k <;> cases hb : ltLen (regCount s.insts) s.qos.maxInstances <;> simp_all
       have h1' : (spiHit s.qos s.insts k || samplesHit s.qos s.insts) = false := by
         simpa using h1
       split
